@@ -442,6 +442,17 @@ Definition v1_extra (st : v1st) : Prop :=
 
 Definition v1_Inv (st : v1st) : Prop := GInv v1st v1_rec v1_dlen B1 two32 st /\ v1_extra st.
 
+(* what survives a v1 store that fails part-way: v1_Inv with the header fields only bounded by the file length
+   (a failed store leaves the bundle-size field behind for good: append_tile adds to it, it never re-reads the
+   file length) and without the largest-tile field *)
+Definition v1_WInv (st : v1st) : Prop :=
+  GInv v1st v1_rec v1_dlen B1 two32 st /\
+  bytes_ok (fst st) /\ bytes_ok (snd st) /\ blen (fst st) = X1 /\
+  (forall s, slot_ok s ->
+     let off := brd (fst st) (v1_ioff s) 5 in
+     off = 0 \/ (60 <= off /\ off + 4 + brd (snd st) off 4 <= blen (snd st))) /\
+  brd (snd st) 24 8 <= blen (snd st) /\ brd (snd st) 16 8 <= blen (snd st).
+
 (* ------------------------------------------------------------------------------------------------ *)
 (* Histories on one bundle                                                                           *)
 
